@@ -1,5 +1,6 @@
 import PharmpyModel.C04.Theta
 import PharmpyModel.C04.OmegaDiag
+import PharmpyModel.C04.OmegaBlock
 import PharmpyModel.C04.ThetaShape
 /-
   Helper lemmas for C04: how the helpers of theta_record.py act on a list of
@@ -561,12 +562,12 @@ theorem Shp.hasK_up (s : Shp) (h : s.WF) : hasK .up s.build = s.up.isSome := by
 /-- step 1 -/
 theorem Shp.setInit_step (s : Shp) (h : s.WF) (hin : s.Input) (p : Param) :
     ∃ s' : Shp, setInit s.build p = s'.build ∧ s'.WF ∧ s'.Input ∧ s'.ini.val = p.init ∧
-      s'.low = s.low ∧ s'.up = s.up ∧ s'.tail = s.tail ∧ s'.lp = s.lp := by
+      s'.low = s.low ∧ s'.up = s.up ∧ s'.tail = s.tail ∧ s'.lp = s.lp ∧ (s.ini.val = p.init → s' = s) := by
   unfold setInit
   rw [Shp.findK_init s h]
   by_cases hv : s.ini.val = p.init
-  · exact ⟨s, by simp [hv], h, hin, hv, rfl, rfl, rfl, rfl⟩
-  · refine ⟨{ s with ini := numNode .init p.initS p.init }, ?_, ?_, ?_, rfl, rfl, rfl, rfl, rfl⟩
+  · exact ⟨s, by simp [hv], h, hin, hv, rfl, rfl, rfl, rfl, fun _ => rfl⟩
+  · refine ⟨{ s with ini := numNode .init p.initS p.init }, ?_, ?_, ?_, rfl, rfl, rfl, rfl, rfl, fun hh => absurd hh hv⟩
     · show (if s.ini.val ≠ p.init then replaceFirst (numNode K.init p.initS p.init) s.build else s.build) = _
       rw [if_pos hv]
       exact Shp.replaceFirst_init s h _ (by simp [numNode])
@@ -576,19 +577,20 @@ theorem Shp.setInit_step (s : Shp) (h : s.WF) (hin : s.Input) (p : Param) :
 /-- step 2 -/
 theorem Shp.setFix_step (s : Shp) (h : s.WF) (hin : s.Input) (p : Param) :
     ∃ s' : Shp, setFix s.build p = s'.build ∧ s'.WF ∧ s'.Input ∧ s'.ini = s.ini ∧
-      s'.low = s.low ∧ s'.up = s.up ∧ hasK .fix s'.tail = p.fix ∧ s'.mult = s.mult ∧ s'.lp = s.lp := by
+      s'.low = s.low ∧ s'.up = s.up ∧ hasK .fix s'.tail = p.fix ∧ s'.mult = s.mult ∧ s'.lp = s.lp ∧
+      (hasK .fix s.tail = p.fix → s' = s) := by
   unfold setFix
   rw [Shp.hasK_fix s h]
   by_cases hf : hasK .fix s.tail = p.fix
-  · exact ⟨s, by simp [hf], h, hin, rfl, rfl, rfl, hf, rfl, rfl⟩
+  · exact ⟨s, by simp [hf], h, hin, rfl, rfl, rfl, hf, rfl, rfl, fun _ => rfl⟩
   · by_cases hp : p.fix = true
-    · refine ⟨{ s with tail := s.tail ++ [tokWs, tokFix] }, ?_, ?_, hin, rfl, rfl, rfl, ?_, ?_, rfl⟩
+    · refine ⟨{ s with tail := s.tail ++ [tokWs, tokFix] }, ?_, ?_, hin, rfl, rfl, rfl, ?_, ?_, rfl, fun hh => absurd hh hf⟩
       · rw [if_pos hf, if_pos hp]
         exact Shp.appendFix_build s
       · exact { h with tail := h.tail.append TailNodes.wsFix }
       · simp [hasK_append, hasK_cons, tokWs, tokFix, hp]
       · simp [Shp.mult, multiple, findK_append, findK_cons, tokWs, tokFix]
-    · refine ⟨{ s with tail := rmFixAux [] s.tail }, ?_, ?_, hin, rfl, rfl, rfl, ?_, ?_, rfl⟩
+    · refine ⟨{ s with tail := rmFixAux [] s.tail }, ?_, ?_, hin, rfl, rfl, rfl, ?_, ?_, rfl, fun hh => absurd hh hf⟩
       · rw [if_pos hf, if_neg hp]
         exact Shp.rmFix_build s h hin
       · exact { h with tail := rmFixAux_tailNodes [] s.tail TailNodes.nil h.tail }
@@ -624,47 +626,52 @@ theorem Shp.WF.noPar {s : Shp} (h : s.WF) : ({ s with lp := none, rp := none } :
 theorem Shp.WF.setPar {s : Shp} (h : s.WF) : ({ s with lp := some tokLpar, rp := some tokRpar } : Shp).WF :=
   { h with lp := (by intro x hh; simp at hh; subst hh; rfl), rp := (by intro x hh; simp at hh; subst hh; rfl), both := rfl }
 
-/-- step 3 -/
-theorem Shp.setUpper_step (s : Shp) (h : s.WF) (hin : s.Input) (p : Param) :
-    ∃ s' : Shp, setUpper s.build p = s'.build ∧ s'.WF ∧ s'.Input ∧ s'.ini = s.ini ∧ s'.low = s.low ∧
+/-- step 3, the branch that touches the upper bound -/
+theorem Shp.setUpperDo_step (s : Shp) (h : s.WF) (hin : s.Input) (p : Param) :
+    ∃ s' : Shp, (setUpperDo s.build p).1 = s'.build ∧ s'.WF ∧ s'.Input ∧ s'.ini = s.ini ∧ s'.low = s.low ∧
       s'.up.map (fun q => q.2.val) = (if needUpper p then some p.upper else none) ∧
-      s'.tail = s.tail ∧ s'.lp = s.lp := by
-  unfold setUpper
+      s'.tail = s.tail ∧ s'.lp = s.lp ∧
+      ((setUpperDo s.build p).2 = true → s'.up = none) := by
+  unfold setUpperDo
   simp only [Shp.hasK_up s h]
   cases hu : s.up with
   | none =>
     cases hn : needUpper p with
     | true =>
       refine ⟨{ s with up := some ([tokComma], numNode .up p.upperS p.upper) }, ?_,
-        h.setUp _ _ (by simp [numNode]) Fillers.comma, hin, rfl, rfl, ?_, rfl, rfl⟩
+        h.setUp _ _ (by simp [numNode]) Fillers.comma, hin, rfl, rfl, ?_, rfl, rfl, ?_⟩
       · simp [Shp.addUpper_build s h hu]
       · simp [numNode]
+      · simp
     | false =>
-      refine ⟨s, ?_, h, hin, rfl, rfl, ?_, rfl, rfl⟩
+      refine ⟨s, ?_, h, hin, rfl, rfl, ?_, rfl, rfl, ?_⟩
       · have := Shp.replaceBound_up s h (numNode .up p.upperS p.upper) (by simp [numNode])
         simp [hu] at this
         simp [this]
         rw [← hu]
       · simp [hu]
+      · simp
   | some q =>
     cases hn : needUpper p with
     | false =>
-      refine ⟨{ s with up := none }, ?_, h.noUp, hin, rfl, rfl, ?_, rfl, rfl⟩
+      refine ⟨{ s with up := none }, ?_, h.noUp, hin, rfl, rfl, ?_, rfl, rfl, ?_⟩
       · simp [Shp.removeUpper_build s h (by simp [hu])]
+      · simp
       · simp
     | true =>
       refine ⟨{ s with up := some (q.1, numNode .up p.upperS p.upper) }, ?_,
-        h.setUp _ _ (by simp [numNode]) (h.up q.1 q.2 (by simp [hu])).2, hin, rfl, rfl, ?_, rfl, rfl⟩
+        h.setUp _ _ (by simp [numNode]) (h.up q.1 q.2 (by simp [hu])).2, hin, rfl, rfl, ?_, rfl, rfl, ?_⟩
       · have := Shp.replaceBound_up s h (numNode .up p.upperS p.upper) (by simp [numNode])
         simp [hu] at this
         simp [this]
       · simp [numNode]
+      · simp
 
-/-- step 4 -/
-theorem Shp.setLower_step (s : Shp) (h : s.WF) (hin : s.Input) (n : Nat) (p : Param) :
-    ∃ s' : Shp, setLower s.low.isSome n s.build p = s'.build ∧ s'.WF ∧ s'.ini = s.ini ∧ s'.up = s.up ∧
+/-- step 4, the branch that touches the lower bound -/
+theorem Shp.setLowerDo_step (s : Shp) (h : s.WF) (hin : s.Input) (n : Nat) (p : Param) :
+    ∃ s' : Shp, setLowerDo s.low.isSome n s.build p = s'.build ∧ s'.WF ∧ s'.ini = s.ini ∧ s'.up = s.up ∧
       s'.low.map (fun q => q.1.val) = (if needLower p then some p.lower else none) ∧ s'.tail = s.tail := by
-  unfold setLower
+  unfold setLowerDo
   cases hl : s.low with
   | none =>
     cases hn : needLower p with
@@ -713,48 +720,6 @@ theorem Shp.setLower_step (s : Shp) (h : s.WF) (hin : s.Input) (n : Nat) (p : Pa
         simp [this]
       · simp [numNode]
 
-/-! ### parse of a shape -/
-
-/-- what `inits`/`bounds`/`fixs`/parsing.py compute from the four observed values -/
-def parseView (init : Val) (lowtok uptok : Option Val) (fix : Bool) : Except PErr Parsed :=
-  match lowerOf lowtok with
-  | .error e => .error e
-  | .ok lower =>
-  match upperOf uptok with
-  | .error e => .error e
-  | .ok upper =>
-  if init = maxUpper || init = minLower then .error .initIsBound else
-  if !fix && uptok.isNone && lowtok = some init then .error .lowEqInit else
-  if !fix && init = zero then .error .zeroInit else
-  let fix' := if lower = upper && upper = init then true else fix
-  if init.lt lower || upper.lt init then .error .initOutside else
-  .ok { init := init, lower := lower, upper := upper, fix := fix' }
-
-theorem Shp.parse_build (s : Shp) (h : s.WF) :
-    parseItem s.build = parseView s.ini.val (s.low.map (fun q => q.1.val)) (s.up.map (fun q => q.2.val))
-      (hasK .fix s.tail) := by
-  unfold parseItem parseView valK
-  rw [Shp.findK_init s h, Shp.findK_low s h, Shp.findK_up s h, Shp.firstFix s h]
-  simp only [Option.map_some, Option.map_map, Function.comp_def]
-  cases hf : hasK .fix s.tail <;> simp <;> rfl
-
-/-! ### the whole `_update_theta` -/
-
-theorem Shp.updItem_parse (s : Shp) (h : s.WF) (hin : s.Input) (p : Param) :
-    parseItem (updItem s.build p) =
-      parseView p.init (if needLower p then some p.lower else none)
-        (if needUpper p then some p.upper else none) p.fix := by
-  unfold updItem
-  obtain ⟨s1, e1, h1, hin1, hv1, hl1, hu1, ht1, hp1⟩ := Shp.setInit_step s h hin p
-  simp only [e1]
-  obtain ⟨s2, e2, h2, hin2, hi2, hl2, hu2, hf2, hm2, hp2⟩ := Shp.setFix_step s1 h1 hin1 p
-  simp only [e2]
-  obtain ⟨s3, e3, h3, hin3, hi3, hl3, hu3, ht3, hp3⟩ := Shp.setUpper_step s2 h2 hin2 p
-  simp only [e3, Shp.hasK_low s2 h2]
-  rw [← hl3]
-  obtain ⟨s4, e4, h4, hi4, hu4, hl4, ht4⟩ := Shp.setLower_step s3 h3 hin3 (multiple s2.build) p
-  rw [e4, Shp.parse_build s4 h4, hl4, hu4, hu3, ht4, ht3, hf2, hi4, hi3, hi2, hv1]
-
 theorem Val.lt_irrefl (v : Val) : v.lt v = false := by
   cases v <;> simp [Val.lt]
 
@@ -787,42 +752,247 @@ theorem upperOf_written (u : Val) (b : Bool) (h1 : u.lt maxUpper = true ∨ u = 
       cases u <;> simp_all [upperOf]
     · subst h; simp [upperOf]
 
-theorem parseView_ok (p : Param) (h : ParamOK p = true) :
-    parseView p.init (if needLower p then some p.lower else none)
-        (if needUpper p then some p.upper else none) p.fix =
+/-- a bound that is left alone because it already reads as the new value reads back as that value -/
+theorem upperOf_of_cur (uptok : Option Val) (u : Val) (hc : curUpper uptok = u)
+    (h1 : u.lt maxUpper = true ∨ u = .pinf) : upperOf uptok = .ok u := by
+  cases uptok with
+  | none => simp [curUpper] at hc; simp [upperOf, hc]
+  | some v =>
+    by_cases hv : v = maxUpper
+    · simp [curUpper, hv] at hc
+      subst hc; subst hv
+      simp [upperOf, maxUpper]
+    · simp [curUpper, hv] at hc
+      subst hc
+      simpa using upperOf_written v true h1 (by simp)
+
+theorem lowerOf_of_cur (lowtok : Option Val) (l : Val) (hc : curLower lowtok = l)
+    (h1 : minLower.lt l = true ∨ l = .ninf) : lowerOf lowtok = .ok l := by
+  cases lowtok with
+  | none => simp [curLower] at hc; simp [lowerOf, hc]
+  | some v =>
+    by_cases hv : v = minLower
+    · simp [curLower, hv] at hc
+      subst hc; subst hv
+      simp [lowerOf, minLower]
+    · simp [curLower, hv] at hc
+      subst hc
+      simpa using lowerOf_written v true h1 (by simp)
+
+def Shp.upV (s : Shp) : Option Val := s.up.map (fun q => q.2.val)
+def Shp.lowV (s : Shp) : Option Val := s.low.map (fun q => q.1.val)
+
+theorem Shp.valK_up (s : Shp) (h : s.WF) : valK .up s.build = s.upV := by
+  simp only [valK, Shp.findK_up s h, Shp.upV, Option.map_map]
+  rfl
+
+theorem Shp.valK_low (s : Shp) (h : s.WF) : valK .low s.build = s.lowV := by
+  simp only [valK, Shp.findK_low s h, Shp.lowV, Option.map_map]
+  rfl
+
+/-- step 3 -/
+theorem Shp.setUpper_step (s : Shp) (h : s.WF) (hin : s.Input) (p : Param) :
+    ∃ s' : Shp, (setUpper s.build p).1 = s'.build ∧ s'.WF ∧ s'.Input ∧ s'.ini = s.ini ∧ s'.low = s.low ∧
+      s'.tail = s.tail ∧ s'.lp = s.lp ∧
+      (p.upper.lt maxUpper = true ∨ p.upper = .pinf → upperOf s'.upV = .ok p.upper) ∧
+      ((setUpper s.build p).2 = true → curUpper s.upV ≠ p.upper) ∧
+      (curUpper s.upV = p.upper → s' = s) := by
+  unfold setUpper
+  rw [Shp.valK_up s h]
+  by_cases hc : curUpper s.upV = p.upper
+  · refine ⟨s, by simp [hc], h, hin, rfl, rfl, rfl, rfl, ?_, by simp [hc], fun _ => rfl⟩
+    intro hU
+    exact upperOf_of_cur _ _ hc hU
+  · obtain ⟨s', e, hw, hi', hini, hlow, hup, htail, hlp, _⟩ := Shp.setUpperDo_step s h hin p
+    refine ⟨s', by simp [hc, e], hw, hi', hini, hlow, htail, hlp, ?_, fun _ => hc, fun hh => absurd hh hc⟩
+    intro hU
+    simp only [Shp.upV, hup]
+    apply upperOf_written _ _ hU
+    intro hn
+    rcases hU with hu | hu
+    · simp [needUpper, hu] at hn
+    · exact hu
+
+/-- step 4 -/
+theorem Shp.setLower_step (s : Shp) (h : s.WF) (hin : s.Input) (n : Nat) (removedU : Bool) (p : Param) :
+    ∃ s' : Shp, setLower s.low.isSome n s.lowV removedU s.build p = s'.build ∧ s'.WF ∧ s'.ini = s.ini ∧
+      s'.up = s.up ∧ s'.tail = s.tail ∧
+      (minLower.lt p.lower = true ∨ p.lower = .ninf → lowerOf s'.lowV = .ok p.lower) ∧
+      (curLower s.lowV = p.lower → (s.low = none → needLower p = false) →
+        (removedU = true → needLower p = true) → s' = s) := by
+  unfold setLower
+  by_cases hc : (curLower s.lowV ≠ p.lower || (!s.low.isSome && needLower p) ||
+      (removedU && s.low.isSome && !needLower p)) = true
+  · obtain ⟨s', e, hw, hini, hup, hlow, htail⟩ := Shp.setLowerDo_step s h hin n p
+    refine ⟨s', by rw [if_pos hc]; exact e, hw, hini, hup, htail, ?_, ?_⟩
+    · intro hL
+      simp only [Shp.lowV, hlow]
+      apply lowerOf_written _ _ hL
+      intro hn
+      rcases hL with hl | hl
+      · simp [needLower, hl] at hn
+      · exact hl
+    · intro h1 h2 h3
+      exfalso
+      simp only [Bool.or_eq_true, Bool.and_eq_true, Bool.not_eq_true', decide_eq_true_eq] at hc
+      rcases hc with (hc | hc) | hc
+      · exact hc h1
+      · cases hs : s.low with
+        | none => simp [h2 hs] at hc
+        | some q => simp [hs] at hc
+      · have := h3 hc.1.1
+        simp [this] at hc
+  · refine ⟨s, by rw [if_neg hc], h, rfl, rfl, rfl, ?_, fun _ _ _ => rfl⟩
+    intro hL
+    simp only [Bool.or_eq_true, Bool.and_eq_true, Bool.not_eq_true', decide_eq_true_eq, not_or, ne_eq,
+      Decidable.not_not] at hc
+    exact lowerOf_of_cur _ _ hc.1.1 hL
+
+/-! ### parse of a shape -/
+
+/-- what `inits`/`bounds`/`fixs`/parsing.py compute from the four observed values -/
+def parseView (init : Val) (lowtok uptok : Option Val) (fix : Bool) : Except PErr Parsed :=
+  match lowerOf lowtok with
+  | .error e => .error e
+  | .ok lower =>
+  match upperOf uptok with
+  | .error e => .error e
+  | .ok upper =>
+  if init = maxUpper || init = minLower then .error .initIsBound else
+  if !fix && uptok.isNone && lowtok = some init then .error .lowEqInit else
+  if !fix && init = zero then .error .zeroInit else
+  let fix' := if lower = upper && upper = init then true else fix
+  if init.lt lower || upper.lt init then .error .initOutside else
+  .ok { init := init, lower := lower, upper := upper, fix := fix' }
+
+theorem Shp.parse_build (s : Shp) (h : s.WF) :
+    parseItem s.build = parseView s.ini.val s.lowV s.upV (hasK .fix s.tail) := by
+  unfold parseItem parseView valK Shp.lowV Shp.upV
+  rw [Shp.findK_init s h, Shp.findK_low s h, Shp.findK_up s h, Shp.firstFix s h]
+  simp only [Option.map_some, Option.map_map, Function.comp_def]
+  cases hf : hasK .fix s.tail <;> simp <;> rfl
+
+/-- whatever bound tokens are present: if they read back as the parameter's bounds, the item reads back
+    as the parameter -/
+theorem parseView_ok (p : Param) (h : ParamOK p = true) (lowtok uptok : Option Val)
+    (hl : lowerOf lowtok = .ok p.lower) (hu : upperOf uptok = .ok p.upper) :
+    parseView p.init lowtok uptok p.fix =
       .ok { init := p.init, lower := p.lower, upper := p.upper, fix := p.fix } := by
   simp only [ParamOK, Bool.and_eq_true, Bool.or_eq_true, Bool.not_eq_true', beq_iff_eq] at h
   obtain ⟨⟨⟨⟨⟨⟨⟨⟨⟨hfin, hlo⟩, hup⟩, hmax⟩, hmin⟩, hle⟩, hz⟩, haf⟩, hil⟩, hui⟩ := h
-  have hU : p.upper.lt maxUpper = true ∨ p.upper = .pinf := hup
-  have hL : minLower.lt p.lower = true ∨ p.lower = .ninf := hlo
-  have hnu : needUpper p = false → p.upper = .pinf := by
-    intro hn; rcases hU with h | h
-    · simp [needUpper, h] at hn
-    · exact h
-  have hnl : needLower p = false → p.lower = .ninf := by
-    intro hn; rcases hL with h | h
-    · simp [needLower, h] at hn
-    · exact h
-  unfold parseView
-  rw [lowerOf_written p.lower (needLower p) hL hnl, upperOf_written p.upper (needUpper p) hU hnu]
   simp only [beq_eq_false_iff_ne, ne_eq] at hmin hmax
-  cases hf : p.fix <;> cases hnU : needUpper p <;> cases hnL : needLower p <;>
-    simp_all <;> (intro e1 e2; simp_all)
+  -- the "lower bound equal to init" refusal cannot fire
+  have hcheck : (!p.fix && uptok.isNone && decide (lowtok = some p.init)) = false := by
+    cases hf : p.fix
+    · cases uptok with
+      | some v => simp
+      | none =>
+        by_cases hli : lowtok = some p.init
+        · exfalso
+          have hpu : p.upper = .pinf := by simpa [upperOf] using hu.symm
+          have hnu : needUpper p = false := by rw [needUpper, hpu]; rfl
+          have hpl : p.lower = p.init := by
+            rw [hli] at hl
+            cases hi : p.init with
+            | ninf => simp [hi] at hfin
+            | pinf => simp [hi] at hfin
+            | fin a b =>
+              rw [hi] at hl hmin
+              simp only [lowerOf] at hl
+              by_cases h1 : Val.fin a b = minLower
+              · exact absurd h1 hmin
+              · simp only [h1, ↓reduceIte] at hl
+                by_cases h2 : (Val.fin a b).lt minLower = true
+                · simp [h2] at hl
+                · simp only [h2] at hl
+                  simpa using hl.symm
+          simp [hf, hnu, hpl] at hle
+        · simp [hli]
+    · simp
+  unfold parseView
+  rw [hl, hu]
+  simp only [hcheck]
+  cases hf : p.fix <;> simp_all <;> (intro e1 e2; simp_all)
 
-theorem Shp.updItem_multiple (s : Shp) (h : s.WF) (hin : s.Input) (p : Param) :
-    multiple (updItem s.build p) = multiple s.build := by
+/-! ### the whole `_update_theta` -/
+
+/-- the four steps on a shape, with everything later proofs need about the result -/
+theorem Shp.updItem_steps (s : Shp) (h : s.WF) (hin : s.Input) (p : Param) :
+    ∃ s4 : Shp, updItem s.build p = s4.build ∧ s4.WF ∧ s4.ini.val = p.init ∧ hasK .fix s4.tail = p.fix ∧
+      multiple s4.tail = multiple s.tail ∧
+      (p.upper.lt maxUpper = true ∨ p.upper = .pinf → upperOf s4.upV = .ok p.upper) ∧
+      (minLower.lt p.lower = true ∨ p.lower = .ninf → lowerOf s4.lowV = .ok p.lower) ∧
+      (s.ini.val = p.init → s4.ini = s.ini) ∧
+      (hasK .fix s.tail = p.fix → s4.tail = s.tail) ∧
+      (curUpper s.upV = p.upper → s4.up = s.up) ∧
+      (curLower s.lowV = p.lower → (s.low = none → needLower p = false) →
+        (needLower p = true ∨ curUpper s.upV = p.upper) → s4.low = s.low) ∧
+      (s.ini.val = p.init → hasK .fix s.tail = p.fix → curUpper s.upV = p.upper → curLower s.lowV = p.lower →
+        (s.low = none → needLower p = false) → s4 = s) := by
   unfold updItem
-  obtain ⟨s1, e1, h1, hin1, hv1, hl1, hu1, ht1, hp1⟩ := Shp.setInit_step s h hin p
+  obtain ⟨s1, e1, h1, hin1, hv1, hl1, hu1, ht1, hp1, hid1⟩ := Shp.setInit_step s h hin p
   simp only [e1]
-  obtain ⟨s2, e2, h2, hin2, hi2, hl2, hu2, hf2, hm2, hp2⟩ := Shp.setFix_step s1 h1 hin1 p
+  obtain ⟨s2, e2, h2, hin2, hi2, hl2, hu2, hf2, hm2, hp2, hid2⟩ := Shp.setFix_step s1 h1 hin1 p
   simp only [e2]
-  obtain ⟨s3, e3, h3, hin3, hi3, hl3, hu3, ht3, hp3⟩ := Shp.setUpper_step s2 h2 hin2 p
-  simp only [e3, Shp.hasK_low s2 h2]
-  rw [← hl3]
-  obtain ⟨s4, e4, h4, hi4, hu4, hl4, ht4⟩ := Shp.setLower_step s3 h3 hin3 (multiple s2.build) p
-  rw [e4, Shp.multiple_build s4 h4, Shp.multiple_build s h]
-  simp only [Shp.mult] at hm2 ⊢
-  rw [ht4, ht3, hm2, ht1]
+  obtain ⟨s3, e3, h3, hin3, hi3, hl3, ht3, hp3, hU3, hflag3, hid3⟩ := Shp.setUpper_step s2 h2 hin2 p
+  simp only [e3, Shp.hasK_low s2 h2, Shp.valK_low s2 h2]
+  have hlow23 : s2.lowV = s3.lowV := by simp [Shp.lowV, hl3]
+  rw [← hl3, hlow23]
+  obtain ⟨s4, e4, h4, hi4, hu4, ht4, hL4, hid4⟩ :=
+    Shp.setLower_step s3 h3 hin3 (multiple s2.build) (setUpper s2.build p).2 p
+  have hup2 : s2.upV = s.upV := by simp [Shp.upV, hu2, hu1]
+  have hlow3 : s3.lowV = s.lowV := by simp [Shp.lowV, hl3, hl2, hl1]
+  have hlow3' : s3.low = s.low := by rw [hl3, hl2, hl1]
+  refine ⟨s4, e4, h4, ?_, ?_, ?_, ?_, hL4, ?_, ?_, ?_, ?_, ?_⟩
+  · rw [hi4, hi3, hi2]; exact hv1
+  · rw [ht4, ht3]; exact hf2
+  · simp only [Shp.mult] at hm2
+    rw [ht4, ht3, hm2, ht1]
+  · intro hU
+    have := hU3 hU
+    simpa [Shp.upV, hu4] using this
+  · intro hv
+    rw [hi4, hi3, hi2, hid1 hv]
+  · intro hf
+    have : s2 = s1 := hid2 (by rw [ht1]; exact hf)
+    rw [ht4, ht3, this, ht1]
+  · intro hc
+    have : s3 = s2 := hid3 (by rw [hup2]; exact hc)
+    rw [hu4, this, hu2, hu1]
+  · intro hc hnone hor
+    have hs3 : s4 = s3 := by
+      apply hid4
+      · rw [hlow3]; exact hc
+      · intro hn; exact hnone (by rw [← hlow3']; exact hn)
+      · intro hr
+        rcases hor with hn | hcu
+        · exact hn
+        · exact absurd (by rw [hup2]; exact hcu) (hflag3 hr)
+    rw [hs3, hlow3']
+  · intro hv hf hcu hcl hnone
+    have e1' : s1 = s := hid1 hv
+    have e2' : s2 = s1 := hid2 (by rw [e1']; exact hf)
+    have e3' : s3 = s2 := hid3 (by rw [hup2]; exact hcu)
+    have e4' : s4 = s3 := by
+      apply hid4
+      · rw [hlow3]; exact hcl
+      · intro hn; exact hnone (by rw [← hlow3']; exact hn)
+      · intro hr
+        exact absurd (by rw [hup2]; exact hcu) (hflag3 hr)
+    rw [e4', e3', e2', e1']
+
+theorem Shp.updItem_parse (s : Shp) (h : s.WF) (hin : s.Input) (p : Param) (hp : ParamOK p = true) :
+    parseItem (updItem s.build p) = .ok p.toParsed ∧ multiple (updItem s.build p) = multiple s.build := by
+  obtain ⟨s4, e, h4, hv, hf, hm, hU, hL, _⟩ := Shp.updItem_steps s h hin p
+  have hp' := hp
+  simp only [ParamOK, Bool.and_eq_true, Bool.or_eq_true, beq_iff_eq] at hp'
+  have hlo : minLower.lt p.lower = true ∨ p.lower = .ninf := hp'.1.1.1.1.1.1.1.1.2
+  have hup : p.upper.lt maxUpper = true ∨ p.upper = .pinf := hp'.1.1.1.1.1.1.1.2
+  refine ⟨?_, ?_⟩
+  · rw [e, Shp.parse_build s4 h4, hv, hf, parseView_ok p hp _ _ (hL hlo) (hU hup)]
+    rfl
+  · rw [e, Shp.multiple_build s4 h4, Shp.multiple_build s h]
+    exact hm
 
 /-- `ItemShape cs`: the children list is one of the layouts of `Shp` (no FIX inside the parentheses) -/
 def ItemShape (cs : List TNode) : Prop := ∃ s : Shp, s.WF ∧ s.Input ∧ cs = s.build
@@ -831,9 +1001,7 @@ def ItemShape (cs : List TNode) : Prop := ∃ s : Shp, s.WF ∧ s.Input ∧ cs =
 theorem updItem_reads_back (cs : List TNode) (hs : ItemShape cs) (p : Param) (hp : ParamOK p = true) :
     parseItem (updItem cs p) = .ok p.toParsed ∧ multiple (updItem cs p) = multiple cs := by
   obtain ⟨s, h, hin, rfl⟩ := hs
-  exact ⟨by rw [Shp.updItem_parse s h hin p, parseView_ok p hp]; rfl, Shp.updItem_multiple s h hin p⟩
-
-
+  exact Shp.updItem_parse s h hin p hp
 
 /-! ### definitions used in the statements of Properties.lean -/
 
@@ -845,17 +1013,6 @@ def nonItems : List RNode → List TNode
   | [] => []
   | .tok t :: r => t :: nonItems r
   | .item _ :: r => nonItems r
-
-
-/-- `Unchanged s p`: the parameter is what the item already says, and the bounds are present exactly
-    when `update` wants them and spelled the way `format_number` spells them. -/
-structure Unchanged (s : Shp) (p : Param) : Prop where
-  init : s.ini.val = p.init
-  fix : hasK .fix s.tail = p.fix
-  up : s.up.isSome = needUpper p
-  upSpelled : ∀ F2 u, s.up = some (F2, u) → u = numNode .up p.upperS p.upper
-  low : s.low.isSome = needLower p
-  lowSpelled : ∀ lo F1, s.low = some (lo, F1) → lo = numNode .low p.lowerS p.lower
 
 
 /-- drop the entries whose index (counted from `i`) is in `inds` -/
@@ -1265,5 +1422,209 @@ theorem recShapeOK_sound (r : List RNode) (h : recShapeOK r = true) : RecShape r
       rcases hc with rfl | hc
       · exact shapeOK_sound _ h.1
       · exact ih h.2 cs hc
+
+/-! ### BLOCK records: the FIX flag -/
+
+def itemNoFix : DNode → Bool
+  | .item cs => !hasK .fix cs
+  | _ => true
+
+/-- no `omega` subtree carries a FIX -/
+def itemsNoFix (r : List DNode) : Bool := r.all itemNoFix
+
+def isBlockTok : DNode → Bool
+  | .tok t => t.k == .block
+  | _ => false
+
+def hasBlock (r : List DNode) : Bool := r.any isBlockTok
+
+theorem blockFixAux_noItemFix (f : Bool) (r : List DNode) (h : itemsNoFix r = true) :
+    blockFixAux f r = .ok f := by
+  induction r generalizing f with
+  | nil => rfl
+  | cons x r ih =>
+    simp only [itemsNoFix, List.all_cons, Bool.and_eq_true] at h
+    cases x with
+    | item cs =>
+      have : hasK .fix cs = false := by simpa [itemNoFix] using h.1
+      simp [blockFixAux, this, ih f h.2]
+    | tok t => simp [blockFixAux, ih f h.2]
+    | diagonal t => simp [blockFixAux, ih f h.2]
+
+theorem blockFixAux_false (f : Bool) (r : List DNode) (h : blockFixAux f r = .ok false) :
+    f = false ∧ itemsNoFix r = true := by
+  induction r generalizing f with
+  | nil => simp [blockFixAux] at h; exact ⟨h, rfl⟩
+  | cons x r ih =>
+    cases x with
+    | item cs =>
+      by_cases hc : hasK .fix cs = true
+      · cases f
+        · simp [blockFixAux, hc] at h
+          have := (ih true h).1
+          simp at this
+        · simp [blockFixAux, hc] at h
+      · simp only [Bool.not_eq_true] at hc
+        simp [blockFixAux, hc] at h
+        obtain ⟨h1, h2⟩ := ih f h
+        refine ⟨h1, ?_⟩
+        simp only [itemsNoFix, List.all_cons, Bool.and_eq_true]
+        exact ⟨by simp [itemNoFix, hc], h2⟩
+    | tok t =>
+      simp [blockFixAux] at h
+      obtain ⟨h1, h2⟩ := ih f h
+      refine ⟨h1, ?_⟩
+      simp only [itemsNoFix, List.all_cons, Bool.and_eq_true]
+      exact ⟨rfl, h2⟩
+    | diagonal t =>
+      simp [blockFixAux] at h
+      obtain ⟨h1, h2⟩ := ih f h
+      refine ⟨h1, ?_⟩
+      simp only [itemsNoFix, List.all_cons, Bool.and_eq_true]
+      exact ⟨rfl, h2⟩
+
+theorem rmFixRootAux_noRootFix (acc r : List DNode) (ha : rootHasFix acc = false) :
+    rootHasFix (rmFixRootAux acc r) = false := by
+  induction r generalizing acc with
+  | nil => simpa [rmFixRootAux, rootHasFix] using ha
+  | cons x r ih =>
+    by_cases hx : isRootFix x = true
+    · cases acc with
+      | nil => simpa [rmFixRootAux, hx] using ih [] rfl
+      | cons a acc =>
+        have ha' : rootHasFix acc = false := by
+          simp [rootHasFix] at ha ⊢; exact ha.2
+        by_cases hw : isRootWs a = true
+        · simpa [rmFixRootAux, hx, hw] using ih acc ha'
+        · simpa [rmFixRootAux, hx, hw] using ih (a :: acc) ha
+    · have : rootHasFix (x :: acc) = false := by
+        simp [rootHasFix] at ha ⊢
+        exact ⟨by simpa using hx, ha⟩
+      simpa [rmFixRootAux, hx] using ih (x :: acc) this
+
+theorem rootHasFix_map_inside (l : List DNode) : rootHasFix (l.map rmFixInside) = rootHasFix l := by
+  induction l with
+  | nil => rfl
+  | cons x l ih =>
+    cases x <;> simp [rootHasFix, rmFixInside, isRootFix] at ih ⊢ <;> simp [ih]
+
+theorem itemsNoFix_map_inside (l : List DNode) : itemsNoFix (l.map rmFixInside) = true := by
+  induction l with
+  | nil => rfl
+  | cons x l ih =>
+    cases x <;> simp [itemsNoFix, rmFixInside, itemNoFix, rmFix_noFix] at ih ⊢ <;> exact ih
+
+theorem rmFixRec_blockFix (r : List DNode) : blockFix (rmFixRec r) = .ok false := by
+  unfold blockFix rmFixRec
+  rw [rootHasFix_map_inside, rmFixRootAux_noRootFix [] r rfl]
+  exact blockFixAux_noItemFix false _ (itemsNoFix_map_inside _)
+
+theorem insertAfterBlock_rootFix (r : List DNode) (h : hasBlock r = true) :
+    rootHasFix (insertAfterBlock [.tok tokWs, .tok tokFix] r) = true := by
+  induction r with
+  | nil => simp [hasBlock] at h
+  | cons x r ih =>
+    cases x with
+    | tok t =>
+      by_cases hb : t.k = .block
+      · simp [insertAfterBlock, hb, rootHasFix, isRootFix]
+      · have : hasBlock r = true := by simpa [hasBlock, isBlockTok, hb] using h
+        simp [insertAfterBlock, hb, rootHasFix, isRootFix] at ih ⊢
+        exact Or.inr (ih this)
+    | item cs =>
+      have : hasBlock r = true := by simpa [hasBlock, isBlockTok] using h
+      simp [insertAfterBlock, rootHasFix, isRootFix] at ih ⊢
+      exact ih this
+    | diagonal t =>
+      have : hasBlock r = true := by simpa [hasBlock, isBlockTok] using h
+      simp [insertAfterBlock, rootHasFix, isRootFix] at ih ⊢
+      exact ih this
+
+theorem insertAfterBlock_items (r : List DNode) :
+    itemsNoFix (insertAfterBlock [.tok tokWs, .tok tokFix] r) = itemsNoFix r := by
+  induction r with
+  | nil => rfl
+  | cons x r ih =>
+    cases x with
+    | tok t =>
+      by_cases hb : t.k = .block <;> simp [insertAfterBlock, hb, itemsNoFix, itemNoFix] at ih ⊢ <;> exact ih
+    | item cs => simp [insertAfterBlock, itemsNoFix, itemNoFix] at ih ⊢; rw [ih]
+    | diagonal t => simp [insertAfterBlock, itemsNoFix, itemNoFix] at ih ⊢; exact ih
+
+/-- the FIX handling at the end of the BLOCK branch reads back, wherever the FIX was written -/
+theorem setBlockFix_reads_back (r : List DNode) (f b : Bool) (h : blockFix r = .ok f) (hb : hasBlock r = true) :
+    blockFix (setBlockFix f r b) = .ok b := by
+  unfold setBlockFix
+  by_cases hbf : b = f
+  · simp [hbf, h]
+  · rw [if_pos hbf]
+    cases b with
+    | true =>
+      have hf : f = false := by cases f <;> simp_all
+      subst hf
+      obtain ⟨h1, h2⟩ := blockFixAux_false _ _ h
+      simp only [↓reduceIte]
+      unfold blockFix
+      rw [insertAfterBlock_rootFix r hb]
+      exact blockFixAux_noItemFix true _ (by rw [insertAfterBlock_items]; exact h2)
+    | false =>
+      simp only [Bool.false_eq_true, ↓reduceIte]
+      exact rmFixRec_blockFix r
+
+/-- no `(v)xn` node of the block has to be split: its n new values are equal -/
+def noSplitB : List DNode → List OParam → Bool
+  | [], _ => true
+  | .item cs :: r, vs =>
+    (match vs.take (multiple cs) with
+     | [] => true
+     | v :: rest => rest.all (fun q => q.raw == v.raw)) && noSplitB r (vs.drop (multiple cs))
+  | _ :: r, vs => noSplitB r vs
+
+theorem setRaw_hasFix (cs : List TNode) (v : OParam) : hasK .fix (setRaw cs v) = hasK .fix cs := by
+  simp [hasK_eq_isSome, setRaw_findK .fix (by simp) cs v]
+
+theorem updBlockVals_flags (r : List DNode) (vs : List OParam) (hn : noSplitB r vs = true) :
+    rootHasFix (updBlockVals r vs) = rootHasFix r ∧ hasBlock (updBlockVals r vs) = hasBlock r ∧
+      ∀ f, blockFixAux f (updBlockVals r vs) = blockFixAux f r := by
+  induction r generalizing vs with
+  | nil => exact ⟨rfl, rfl, fun _ => rfl⟩
+  | cons x r ih =>
+    cases x with
+    | tok t =>
+      obtain ⟨h1, h2, h3⟩ := ih vs (by simpa [noSplitB] using hn)
+      refine ⟨?_, ?_, ?_⟩
+      · simp [updBlockVals, rootHasFix] at h1 ⊢; rw [h1]
+      · simp [updBlockVals, hasBlock] at h2 ⊢; rw [h2]
+      · intro f; simp [updBlockVals, blockFixAux, h3]
+    | diagonal t =>
+      obtain ⟨h1, h2, h3⟩ := ih vs (by simpa [noSplitB] using hn)
+      refine ⟨?_, ?_, ?_⟩
+      · simp [updBlockVals, rootHasFix] at h1 ⊢; rw [h1]
+      · simp [updBlockVals, hasBlock] at h2 ⊢; rw [h2]
+      · intro f; simp [updBlockVals, blockFixAux, h3]
+    | item cs =>
+      simp only [noSplitB, Bool.and_eq_true] at hn
+      obtain ⟨h1, h2, h3⟩ := ih (vs.drop (multiple cs)) hn.2
+      have hitem : ∃ cs', updOmegaItem cs (vs.take (multiple cs)) = [.item cs'] ∧ hasK .fix cs' = hasK .fix cs := by
+        unfold updOmegaItem
+        cases ht : vs.take (multiple cs) with
+        | nil => exact ⟨cs, rfl, rfl⟩
+        | cons v rest =>
+          have hall : (v :: rest).all (fun q => q.raw == v.raw) = true := by
+            have := hn.1
+            rw [ht] at this
+            simpa using this
+          simp only [hall, ↓reduceIte]
+          exact ⟨_, rfl, setRaw_hasFix cs v⟩
+      obtain ⟨cs', e, hf⟩ := hitem
+      refine ⟨?_, ?_, ?_⟩
+      · simp [updBlockVals, e, rootHasFix, isRootFix] at h1 ⊢; exact h1
+      · simp [updBlockVals, e, hasBlock, isBlockTok] at h2 ⊢; exact h2
+      · intro f
+        simp only [updBlockVals, e, List.singleton_append, blockFixAux, hf]
+        cases hasK .fix cs <;> cases f <;> simp [h3]
+
+
+def nBlock : TNode := { k := .block, rule := "block", text := "BLOCK(2)" }
 
 end Pharmpy.C04
